@@ -3,6 +3,8 @@ package protobuild
 import (
 	"context"
 	"fmt"
+	"path"
+	"sort"
 	"strings"
 
 	"github.com/pentops/j5/internal/protosrc"
@@ -104,9 +106,20 @@ func (rr *dependencyResolver) listPackageFiles(_ context.Context, pkgName string
 		return []string{}, nil
 	}
 
-	files := rr.deps.ListDependencyFiles(root)
+	// The files are listed by prefix, which also matches the files of
+	// sub-packages (ext/v1/sub/...) and of siblings (ext/v10/...). Only the
+	// files directly in the directory belong to the package, as for local
+	// packages.
+	files := make([]string, 0)
+	for _, filename := range rr.deps.ListDependencyFiles(root) {
+		if path.Dir(filename) != root {
+			continue
+		}
+		files = append(files, filename)
+	}
 	if len(files) == 0 {
 		return nil, fmt.Errorf("no files for package at %s", root)
 	}
+	sort.Strings(files)
 	return files, nil
 }
